@@ -11,6 +11,8 @@
 From Coq Require Import NArith ZArith List Bool.
 From LibaV Require Import C06.StrDefs C06.StrSpec C07.StrFaultDefs C07.StrFaultProofs C07.StrLedgerProofs.
 From LibaV Require C04.VecDefs C04.VecSpec C07.VecFaultDefs C07.VecFaultProofs C07.VecLedgerProofs.
+From LibaV Require C05.DListDefs C05.DListProofs C05.QueDefs C05.QueSpec C05.QueProofs.
+From LibaV Require C07.QueFaultDefs C07.QueTraceProofs C07.QueFixProofs C07.QueLedgerProofs C07.QueFaultProofs.
 Import ListNotations.
 Local Open Scope N_scope.
 
@@ -184,3 +186,102 @@ Theorem vec_ledger_balanced :
 Proof. exact vec_ledger_balanced_all. Qed.
 Print Assumptions vec_ledger_balanced.
 End VecPart.
+
+(* ====================================================================== queue part.
+   Model: C05/QueDefs.v (pointer-level: heap of ring nodes [w_h], two queue objects with their
+   stacks of recycled nodes; every a_alloc request of size > 0 consumes one boolean of [w_sched]
+   and is logged in [w_trace]; [failed w'] = a request of the last operation was refused) with
+   coq/C07/QueFaultDefs.v: [qf_step] = one call of the library as it is now (a_que_drop reserves
+   the pool array first, a_que_setz releases the recycled nodes: fix commits 2e456ba / 8678f0c),
+   [q_fail_ret] = the failure value (null element pointer / A_OMEMORY), [q_same] = the same world
+   up to pending schedule and trace, [live_blocks] = element nodes in the heap + one pool array
+   per object whose capacity is not 0, [q_destroy] = a_que_dtor on both objects.
+   [QInv w X] is C05's representation invariant (rings, recycled nodes disjoint, counts);
+   [qf_hist_pre] = every a_que_swap_ of the history names two enqueued elements (C05's
+   precondition); [qf_steps w os] = every (world, operation, outcome) of a history.
+   Proofs: C07/QueTraceProofs.v, QueFixProofs.v, QueLedgerProofs.v, QueFaultProofs.v.
+   Tied to src/que.c by checks/C07.py (fault enumeration, own driver harness/C07/que_drv.c). *)
+Module QuePart.
+Import FMapPositive C05.DListDefs C05.DListProofs C05.QueDefs C05.QueSpec C05.QueProofs.
+Import C07.QueFaultDefs C07.QueTraceProofs C07.QueLedgerProofs C07.QueFaultProofs.
+
+(* "reports" + "preserves" + "retry", every step of every history from the two freshly
+   constructed queues, under every fault schedule (the schedule is part of the world and may be
+   replaced between operations by QSched): each operation is carried out without model fault;
+   if one of its requests was refused it returns its failure value, the world is the one before
+   the call up to pending schedule and trace -- so both rings, both stacks of recycled nodes,
+   every element address and value, counts and capacities, the invariant and the abstract
+   contents are as before -- and re-issuing it under any schedule is the step the untouched world
+   makes under that schedule *)
+Theorem que_fault_reports_preserves_retry :
+  forall os : list qop, qf_hist_pre q_world0 os ->
+  Forall (fun x : qworld * qop * outcome (qworld * Z) =>
+            let '(w0, o, res) := x in
+            exists w' r, res = Ok (w', r) /\ (exists X', QInv w' X') /\
+              (failed w' = true ->
+                 q_fail_ret o = Some r /\ q_same w0 w' /\
+                 (forall X, QInv w0 X -> QInv w' X /\ abs w' X = abs w0 X) /\
+                 (forall sc, qf_step (set_sched w' sc) o = qf_step (set_sched w0 sc) o)))
+         (qf_steps q_world0 os).
+Proof. exact que_fault_all_init. Qed.
+Print Assumptions que_fault_reports_preserves_retry.
+
+(* one step from any state satisfying the invariant *)
+Theorem que_fault_one_step :
+  forall w0 X o w' r,
+  QInv w0 X -> qf_step w0 o = Ok (w', r) -> failed w' = true ->
+  q_fail_ret o = Some r /\ q_same w0 w' /\ QInv w' X /\ abs w' X = abs w0 X.
+Proof. exact que_fault_step. Qed.
+Print Assumptions que_fault_one_step.
+
+(* once memory is available (nothing pending in the schedule) nothing is refused *)
+Theorem que_fault_retry_granted :
+  forall w0 X o,
+  QInv w0 X -> dq_pre o (abs w0 X) -> not_sched o -> no_fault w0 ->
+  exists w' r, qf_step w0 o = Ok (w', r) /\ failed w' = false /\ no_fault w'.
+Proof. exact que_retry_granted. Qed.
+Print Assumptions que_fault_retry_granted.
+
+(* the repaired a_que_drop / a_que_setz are all-or-nothing: every operation refines the abstract
+   double-ended sequence of C05, with  drop / setz: (0, emptied) or (A_OMEMORY, unchanged) *)
+Theorem que_refines_all_or_nothing :
+  forall w0 X o,
+  QInv w0 X -> dq_pre o (abs w0 X) ->
+  exists w' r X', qf_step w0 o = Ok (w', r) /\ QInv w' X' /\
+    dqf_step o (abs w0 X) r (failed w') (abs w' X') /\
+    (not_sched o -> no_fault w0 -> no_fault w' /\ failed w' = false).
+Proof. exact qf_step_refines. Qed.
+Print Assumptions que_refines_all_or_nothing.
+
+(* "ledger": along every history (failed operations included) the heap holds exactly the two
+   sentinels and the nodes the two objects account for (enqueued + recycled: none is lost, none
+   is released twice -- a release of an address that is not in the heap would not lower the
+   count), and after a_que_dtor on both objects no block is live *)
+Theorem que_ledger_balanced :
+  forall os : list qop, qf_hist_pre q_world0 os ->
+  exists w' rs, qf_run q_world0 os = Ok (w', rs) /\
+    (PositiveMap.cardinal (w_h w') = (2 + held w')%nat /\ live (w_h w') 1 /\ live (w_h w') 2 /\
+     (forall x, live (w_h w') x -> (x < w_fresh w')%N) /\ (3 <= w_fresh w')%N) /\
+    exists w'', q_destroy w' = Ok w'' /\ live_blocks w'' = 0%nat /\
+                (forall x, live (w_h w'') x -> x = 1%N \/ x = 2%N).
+Proof. exact que_ledger_balanced_init. Qed.
+Print Assumptions que_ledger_balanced.
+
+(* the bodies as found (before the two fix: commits) are refuted by witness: nine elements, a
+   later request refused, A_OMEMORY returned after elements had been moved / dropped *)
+Theorem que_drop_as_found_refuted :
+  exists w w', (exists X, QInv w X) /\ failed w = false /\
+    q_drop_orig w false = Ok (w', 4%Z) /\ failed w' = true /\
+    ring_of (w_h w) 1 (fuel_of w) = Some [3; 4; 5; 6; 7; 8; 9; 10; 11]%N /\
+    ring_of (w_h w') 1 (fuel_of w') = Some [11]%N.
+Proof. exact C07.QueFaultProofs.que_drop_as_found_refuted. Qed.
+Print Assumptions que_drop_as_found_refuted.
+
+Theorem que_setz_as_found_refuted :
+  exists w w', (exists X, QInv w X) /\ failed w = false /\
+    q_setz_orig w false 9 = Ok (w', 4%Z) /\ failed w' = true /\
+    ring_of (w_h w) 1 (fuel_of w) = Some [3; 4; 5; 6; 7; 8; 9; 10; 11]%N /\
+    ring_of (w_h w') 1 (fuel_of w') = Some []%N.
+Proof. exact C07.QueFaultProofs.que_setz_as_found_refuted. Qed.
+Print Assumptions que_setz_as_found_refuted.
+End QuePart.
